@@ -250,7 +250,7 @@ func (d *Daemon) Start() error {
 	args := append(append([]string{}, d.Opts.Wrapper...), DirkBin(), "--base-dir", d.Opts.Dir)
 	d.Cmd = exec.Command(args[0], args[1:]...)
 	d.Cmd.Env = append(os.Environ(), d.Opts.Env...)
-	lf, err := os.OpenFile(d.LogPath, os.O_CREATE|os.O_WRONLY|os.O_APPEND, 0o644)
+	lf, err := newCappedLog(d.LogPath, 64<<20)
 	if err != nil {
 		return err
 	}
@@ -316,11 +316,72 @@ func (d *Daemon) Stop() {
 
 // LogTail returns the end of the daemon's log.
 func (d *Daemon) LogTail(n int) string {
-	b, _ := os.ReadFile(d.LogPath)
-	if len(b) > n {
-		b = b[len(b)-n:]
+	b := fileTail(d.LogPath, n)
+	if len(b) < n {
+		b = append(fileTail(d.LogPath+".1", n-len(b)), b...)
 	}
 	return string(b)
+}
+
+func fileTail(path string, n int) []byte {
+	f, err := os.Open(path)
+	if err != nil {
+		return nil
+	}
+	defer f.Close()
+	st, err := f.Stat()
+	if err != nil {
+		return nil
+	}
+	off := st.Size() - int64(n)
+	if off < 0 {
+		off = 0
+	}
+	b := make([]byte, st.Size()-off)
+	m, _ := f.ReadAt(b, off)
+	return b[:m]
+}
+
+// cappedLog is the daemon's log file: a daemon at trace level logs every hostile request in full, which filled the
+// disk (133 GB) in a long run.  When the file exceeds the cap it becomes <path>.1 (replacing the previous one).
+type cappedLog struct {
+	mu   sync.Mutex
+	path string
+	max  int64
+	n    int64
+	f    *os.File
+}
+
+func newCappedLog(path string, max int64) (*cappedLog, error) {
+	f, err := os.OpenFile(path, os.O_CREATE|os.O_WRONLY|os.O_APPEND, 0o644)
+	if err != nil {
+		return nil, err
+	}
+	st, _ := f.Stat()
+	return &cappedLog{path: path, max: max, f: f, n: st.Size()}, nil
+}
+
+func (c *cappedLog) Write(p []byte) (int, error) {
+	c.mu.Lock()
+	defer c.mu.Unlock()
+	if c.n+int64(len(p)) > c.max && c.n > 0 {
+		_ = c.f.Close()
+		_ = os.Rename(c.path, c.path+".1")
+		f, err := os.OpenFile(c.path, os.O_CREATE|os.O_WRONLY|os.O_TRUNC, 0o644)
+		if err != nil {
+			return 0, err
+		}
+		c.f, c.n = f, 0
+	}
+	n, err := c.f.Write(p)
+	c.n += int64(n)
+	return n, err
+}
+
+func (c *cappedLog) Close() error {
+	c.mu.Lock()
+	defer c.mu.Unlock()
+	return c.f.Close()
 }
 
 // ClientTLS builds a client TLS configuration trusting the CA and presenting the certificates given.
